@@ -68,7 +68,8 @@ Section Complete.
       cbn [ids] in Hnd, Hdis.
       inversion Hsub as [|h' subs' y Hy Hx]; subst.
       + (* the node itself *)
-        cbn [contributes] in Hc. destruct (ukind_of (h_kind h)) eqn:UK; [contradiction| |].
+        cbn [contributes] in Hc. destruct (ukind_of (h_kind h)) eqn:UK; [contradiction| | |].
+        * destruct Hc as [own [Ho Hi]]. rewrite Ho in H. injection H as <-. exact Hi.
         * destruct Hc as [own [Ho Hi]]. rewrite Ho in H. injection H as <-. exact Hi.
         * assert (OP : on_path h path = false).
           { unfold on_path. destruct (h_id h) as [i|] eqn:Hid; [|reflexivity].
@@ -79,6 +80,8 @@ Section Complete.
           injection H as <-. apply in_or_app. left. exact Hi.
       + (* below child y *)
         destruct (ukind_of (h_kind h)) eqn:UK.
+        * exfalso. rewrite forallb_forall in Hl1. specialize (Hl1 y Hy). destruct y; try discriminate.
+          apply sub_of_leaf in Hx. subst x. destruct Hc.
         * exfalso. rewrite forallb_forall in Hl1. specialize (Hl1 y Hy). destruct y; try discriminate.
           apply sub_of_leaf in Hx. subst x. destruct Hc.
         * exfalso. rewrite forallb_forall in Hl1. specialize (Hl1 y Hy). destruct y; try discriminate.
@@ -155,6 +158,7 @@ Proof.
   cbn [unsafe_g] in H. destruct n as [h subs|sl id|sl l].
   - destruct (ukind_of (h_kind h)) eqn:UK.
     + injection H as <-. contradiction.
+    + exists (Node h subs). split; [exact Hs|]. cbn [contributes]. rewrite UK. eauto.
     + exists (Node h subs). split; [exact Hs|]. cbn [contributes]. rewrite UK. eauto.
     + destruct (on_path h path); [injection H as <-; contradiction|].
       destruct (own_unsafe E T h) as [own|] eqn:O; cbn [bind] in H; [|discriminate H].
